@@ -7,6 +7,7 @@
 #include "QXmppEntityTimeIq.h"
 #include "QXmppIbbIq.h"
 #include "QXmppIq.h"
+#include "QXmppJingleIq.h"
 #include "QXmppNonSASLAuth.h"
 #include "QXmppRosterIq.h"
 #include "QXmppStanza.h"
@@ -191,6 +192,17 @@ int main(int argc, char **argv)
         printf("default-constructed QXmppStanza::Error on a poisoned heap: fileTooLarge() = %d, maxFileSize() = %lld (0x%llx)\n", e.fileTooLarge(), (long long)v, (unsigned long long)v);
         printf("%s maxFileSize() of a default-constructed error is indeterminate (QXmppStanzaErrorPrivate::maxFileSize has no initialiser)\n", v != 0 ? "REPRODUCED" : "NOT-REPRODUCED");
         return v != 0 ? 1 : 0;
+    }
+    if (!strcmp(sc, "payloadtype-channels-zero")) {
+        const char *in = "<payload-type xmlns='urn:xmpp:jingle:apps:rtp:1' id='96' name='opus' channels='0'/>";
+        QXmppJinglePayloadType a, b;
+        reparse(QByteArray(in), a);
+        QByteArray out = ser(a);
+        reparse(out, b);
+        printf("in:  %s\nout: %s\nchannels after first parse %d, after second parse %d\n", in, out.constData(), a.channels(), b.channels());
+        bool bad = a.channels() != b.channels();
+        printf("%s QXmppJinglePayloadType with channels='0' is not a parse/serialise fixpoint\n", bad ? "REPRODUCED" : "NOT-REPRODUCED");
+        return bad ? 1 : 0;
     }
     fprintf(stderr, "unknown scenario\n");
     return 2;
